@@ -35,6 +35,11 @@ func (f *Face) GlyphExtents(glyph GID) (GlyphExtents, bool) {
 	}
 	e, ok := f.glyphExtentsRaw(glyph)
 	if ok {
+		if f.extentsCache == nil {
+			// the number of glyphs is not related to the size of the font file:
+			// do not pay for the cache before the face is used
+			f.extentsCache = make(extentsCache, f.nGlyphs)
+		}
 		f.extentsCache.set(glyph, e)
 	}
 	return e, ok
